@@ -54,6 +54,10 @@ RULE += (" Added after the white-box review: "
          "optionally path loss and noise x 1e-14..1e-6, receive "
          "filters x 1e-8..1e-5, and everything asked again after a "
          "later set_pathloss ")
+RULE += (" Added after the second white-box review: the joint-"
+         "processing SINR and covariance are asked again after the later "
+         "set_pathloss; the solver's reverse-network interference "
+         "covariance (calc_Q_rev) is compared with the explicit sum. ")
 
 ASSUMPTIONS = [
     "K >= 2 and generic (seeded complex Gaussian) precoders/filters: the "
@@ -405,6 +409,16 @@ def check(case, ctx):
             _check_Q(ctx, "Q", ch.calc_Q(k, _obj(F), *pe_args()),
                      _oracle_Q(model2, k, F, noise, pe, False), t3,
                      "calc_Q(%d) after set_pathloss" % k)
+        # the joint-processing pair answers for the new path loss too
+        t4 = dict(t3, jp=True)
+        _cmp_sinr(ctx, "sinr_channel_vs_oracle",
+                  ch.calc_JP_SINR(_obj(Fjp), _obj(U), *pe_args()),
+                  _oracle_sinr(model2, Fjp, U, noise, pe, True), t4,
+                  "calc_JP_SINR after set_pathloss")
+        for k in range(K):
+            _check_Q(ctx, "Q", ch.calc_JP_Q(k, _obj(Fjp), *pe_args()),
+                     _oracle_Q(model2, k, Fjp, noise, pe, True), t4,
+                     "calc_JP_Q(%d) after set_pathloss" % k)
         if ext:
             R2 = ch.calc_cov_matrix_extint_plus_noise(*(
                 [] if pe_arg is None else [float(pe_arg)]))
@@ -490,6 +504,24 @@ def check(case, ctx):
         _check_Q(ctx, "Q", sol.calc_Q(k),
                  _oracle_Q(model, k, fF, noise, 1.0 if ext else 0.0, False),
                  t, "solver.calc_Q(%d)" % k)
+    # reverse network (receivers transmit with their unit-norm filters and
+    # the same powers): interference covariance at "receiver" k = sum over
+    # the other users l of P[l] * H_lk^H W_l W_l^H H_lk
+    sol3 = _Solver(ch)
+    sol3.set_precoders(full_F=_obj([f.copy() for f in F]), P=P)
+    Wn = [u / np.linalg.norm(u) for u in U]
+    sol3.set_receive_filters(W=_obj([w.copy() for w in Wn]))
+    Pv = np.asarray(sol3.P, dtype=float)
+    for k in range(K):
+        ref = np.zeros((Nt[k], Nt[k]), dtype=complex)
+        for j in range(K):
+            if j != k:
+                G = model.Hkl(j, k).conj().T.dot(Wn[j])
+                ref += Pv[j] * G.dot(G.conj().T)
+        if float(np.trace(ref).real) > 0.0:
+            _check_Q(ctx, "Q_rev", sol3.calc_Q_rev(k), ref, t,
+                     "solver.calc_Q_rev(%d)" % k)
+    ctx.label("reverse_network_Q")
     # power sweep as a user writes it: the caller updates ITS OWN power array
     # in place and assigns it again; the reported SINRs must be those of the
     # new powers (precoders scale with sqrt(P), everything was cached above)
